@@ -56,12 +56,27 @@ func vrdBytes(v string) []byte {
 		fmt.Sscanf(v[2:], "%d", &n)
 		tv = &sdcpb.TypedValue{Value: &sdcpb.TypedValue_UintVal{UintVal: n}}
 	}
+	if strings.HasPrefix(v, "l:") {
+		// a leaf-list: l:a,b,c
+		var el []*sdcpb.TypedValue
+		for _, e := range strings.Split(v[2:], ",") {
+			el = append(el, &sdcpb.TypedValue{Value: &sdcpb.TypedValue_StringVal{StringVal: e}})
+		}
+		tv = &sdcpb.TypedValue{Value: &sdcpb.TypedValue_LeaflistVal{LeaflistVal: &sdcpb.ScalarArray{Element: el}}}
+	}
 	b, _ := proto.Marshal(tv)
 	return b
 }
 
 // the datum a stored value denotes (a uint leaf may be stored as a string by older writers)
 func vrdDatum(v string) string {
+	if strings.HasPrefix(v, "l:") {
+		return utils.TypedValueToString(func() *sdcpb.TypedValue {
+			tv := &sdcpb.TypedValue{}
+			_ = proto.Unmarshal(vrdBytes(v), tv)
+			return tv
+		}())
+	}
 	return strings.TrimPrefix(strings.TrimPrefix(v, "s:"), "u:")
 }
 
@@ -98,6 +113,14 @@ func TestVerifReplayDeviations(t *testing.T) {
 			{{"i1", 5, "u:20"}, {"i2", 10, "s:30"}},
 			{{"i1", 5, "s:20"}},
 			{{"i1", 5, "s:30"}, {"i2", 10, "u:30"}},
+		}},
+		// a leaf-list: the same entries are the same value, one entry more on either side is a deviation
+		{[]string{"leaflist", "entry"}, "leaflist/entry", []string{"l:a,b", "l:a,b,c"}, [][]vrdIntent{
+			{{"i1", 10, "l:a,b"}},
+			{{"i1", 10, "l:a,b,c"}},
+			{{"i1", 10, "l:a,b"}, {"i2", 20, "l:a,b,c"}},
+			{{"i1", 10, "l:a,b,c"}, {"i2", 20, "l:a,b"}},
+			{{"i1", 10, "l:a,b"}, {"i2", 10, "l:a,b,c"}},
 		}},
 	}
 	for _, keysFail := range []bool{false, true} {
@@ -136,7 +159,41 @@ func TestVerifReplayDeviations(t *testing.T) {
 					cc.EXPECT().Read(gomock.Any(), gomock.Any(), gomock.Any(), gomock.Any(), gomock.Any()).AnyTimes().DoAndReturn(
 						func(_ context.Context, _ string, opts *cache.Opts, paths [][]string, _ time.Duration) []*cache.Update {
 							if opts.Store == cachepb.Store_INTENDED && len(paths) == 1 && strings.Join(paths[0], "\x00") == strings.Join(path, "\x00") {
-								return append([]*cache.Update{}, intUpds...)
+								// the read semantics of the cache: with priority 0 the entries of the best max(1, PriorityCount)
+								// distinct priorities of the path, whoever owns them; otherwise the owner's entry at that priority
+								var out []*cache.Update
+								if opts.Priority > 0 {
+									for _, u := range intUpds {
+										if u.Owner() == opts.Owner && u.Priority() == opts.Priority {
+											out = append(out, u)
+										}
+									}
+									return out
+								}
+								count := int(opts.PriorityCount)
+								if count < 1 {
+									count = 1
+								}
+								prios := map[int32]bool{}
+								for _, u := range intUpds {
+									prios[u.Priority()] = true
+								}
+								var ps []int32
+								for p := range prios {
+									ps = append(ps, p)
+								}
+								sort.Slice(ps, func(i, j int) bool { return ps[i] < ps[j] })
+								if len(ps) > count {
+									ps = ps[:count]
+								}
+								for _, u := range intUpds {
+									for _, p := range ps {
+										if u.Priority() == p {
+											out = append(out, u)
+										}
+									}
+								}
+								return out
 							}
 							return nil
 						})
